@@ -238,6 +238,19 @@ def c05(ctx):
     model_cases(ctx, "leaky", "c05", leaky_cfgs(ctx))
 
 
+@prop("C17")
+def c17(ctx):
+    maxlen = 4 if ctx.tier == "thorough" else 3
+    cases = os.path.join(ctx.work, "backend.ndjson")
+    st = ctx.tlc("MC_Backend", {"MaxLen": maxlen}, invariants=["TypeInv", "LawRemaining", "LawSpace", "LawWriteRead", "LawSeek", "LawReverse", "Emit"], emit_to=cases)
+    if st["spec_violation"]:
+        ctx.violation("specification law %s fails:\n%s" % (st["spec_violation"], st.get("counterexample", "")), {"k": "spec", "module": "MC_Backend"})
+        return
+    ctx.vh("replay", mode="c17", infile=cases)
+    for c in ("vec", "cursor", "rev"):
+        ctx.require(c)
+
+
 def selftest():
     return 0
 
